@@ -649,8 +649,18 @@ func (l *IPFSLog) Join(otherLog iface.IPFSLog, size int) (iface.IPFSLog, error) 
 		entries := entry.NewOrderedMapFromEntries(tmp)
 		heads := entry.NewOrderedMapFromEntries(entry.FindHeads(entry.NewOrderedMapFromEntries(tmp)))
 
+		// the reverse index must describe the entries that are kept: a link from an entry that was
+		// cut away would make its predecessor, if it is merged in again later, look referenced
+		next := entry.NewOrderedMap()
+		for _, e := range tmp {
+			for _, n := range e.GetNext() {
+				next.Set(n.String(), e)
+			}
+		}
+
 		l.Entries = entries
 		l.heads = heads
+		l.Next = next
 
 		verifYield("Join:truncated")
 	}
